@@ -130,6 +130,22 @@ def lower : Str → Str
     | some e => e.2.map Char.ofNat ++ lower s
     | none => lowerAsciiChar c :: lower s
 
+/-- longest prefix of `\d` characters and the rest -/
+def spanDecimals : Str → Str × Str
+  | [] => ([], [])
+  | c :: s => if isDecimal c then let r := spanDecimals s; (c :: r.1, r.2) else ([], c :: s)
+
+/-- exactly `n` `\d` characters -/
+def takeDec : Nat → Str → Option (Str × Str)
+  | 0, s => some ([], s)
+  | _ + 1, [] => none
+  | n + 1, c :: s => if isDecimal c then (match takeDec n s with | some (a, r) => some (c :: a, r) | none => none) else none
+
+/-- drop one expected character -/
+def dropChar (c : Char) : Str → Option Str
+  | [] => none
+  | x :: s => if x = c then some s else none
+
 def join (sep : Str) : List Str → Str
   | [] => []
   | [a] => a
